@@ -1366,7 +1366,7 @@ class AstEval:
 
     async def recurse_assign(self, lhs, val):
         """Recursive assignment."""
-        if isinstance(lhs, ast.Tuple):
+        if isinstance(lhs, (ast.Tuple, ast.List)):
             try:
                 vals = [*(iter(val))]
             except Exception:
